@@ -13,7 +13,7 @@ R07.4 (K2): TransportManager::on_connection_closed yields TransportEvent::Connec
 """
 import re
 from paths import Inter
-from common import exit_desc, short, local_used
+from common import exit_desc, short, local_used, for_loops, loop_left_early
 
 EXPLANATION = ("All-paths structural obligations on the MIR CFG (pre-coroutine-transform) of the connection event loops "
                "and ProtocolSet report functions: every exit of each transport's connection loop is preceded by the close "
@@ -116,9 +116,11 @@ def r07_2(ctx, fx):
     # no fan-out poll is reachable after the manager send
     fan = [c for c in fn.calls(r"StreamExt::next$|FuturesUnordered.*::poll_next|Next<.*>.*::poll$|future::Future::poll$")
            if any("FuturesUnordered" in a for a in c.f.get("args", []))]
-    ctx.anchor("R07.2", "protocol fan-out poll", len(fan), 1, cfg=fx.cfg)
+    # sequential form: `for p in protocols { p.tx.send(event).await }`
+    seq = [c for c in fn.calls(r"mpsc::(bounded::)?Sender::send$") if any("InnerTransportEvent" in a for a in c.f.get("args", []))]
+    ctx.anchor("R07.2", "protocol notification sites (fan-out poll or awaited send)", len(fan) + len(seq), 1, cfg=fx.cfg)
     after = fn.reach([s.node for s in sends], after=True)
-    late = [c for c in fan if c.node in after]
+    late = [c for c in fan + seq if c.node in after]
     ctx.ob("R07.2", "report_connection_closed/protocols-before-manager", not late,
            site=fn.site(sends[0].node), detail="fan-out polls reachable after the manager send: %s" % late, cfg=fx.cfg)
     # the manager send is not reachable without passing the fan-out loop's exit test (is_empty)
@@ -167,7 +169,25 @@ def r07_6(ctx, fx):
         if fn is None:
             continue
         polls = fanout_polls(fn)
-        ctx.anchor("R07.6", "%s: fan-out poll" % meth, len(polls), 1, cfg=fx.cfg)
+        seq = [c for c in fn.calls(r"mpsc::(bounded::)?Sender::send$") if any("InnerTransportEvent" in a for a in c.f.get("args", []))]
+        ctx.anchor("R07.6", "%s: protocol notification sites" % meth, len(polls) + len(seq), 1, cfg=fx.cfg)
+        # R07.8: a protocol is told with the waiting send; a `try_send` gives up on a protocol whose channel is momentarily full, and that
+        # protocol then never learns about the connection (closed: stale context forever)
+        holders = [fn] + [fx.fn(k) for k in sorted(fx.find("^" + re.escape(fn.key) + r"::\{closure#\d+\}"))]
+        trys = [(h, c) for h in holders for c in h.calls(r"mpsc::(bounded::)?Sender::try_send$|Sender::try_reserve$|Sender::send_timeout$")
+                if any("InnerTransportEvent" in a for a in c.f.get("args", []))]
+        waits = [(h, c) for h in holders for c in h.calls(r"mpsc::(bounded::)?Sender::send$") if any("InnerTransportEvent" in a for a in c.f.get("args", []))]
+        ctx.ob("R07.8", "%s/protocols-are-told-with-the-waiting-send" % meth, bool(waits) and not trys, site=fn.site(fn.entry), cfg=fx.cfg,
+               detail="waiting sends: %d, non-waiting sends: %s" % (len(waits), [h.site(c.node) for h, c in trys]))
+        if seq and not polls:
+            for i, lp in enumerate(for_loops(fn)):
+                body = fn.reach([x for x, l in fn.succs(lp[1][0]) if l in lp[3]], avoid=[lp[0].node])
+                if not any(c.node in body for c in seq):
+                    continue
+                w = loop_left_early(fn, lp)
+                ctx.ob("R07.6", "%s/fan-out-runs-to-completion" % meth, w is None, site=fn.site(lp[0].node), cfg=fx.cfg,
+                       detail="sequential fan-out left early at %s" % (fn.site(w) if w else None))
+            continue
         targets = [n for n, _ in fn.exits()]
         if meth == "report_connection_closed":
             targets += [c.node for c in fn.calls(r"mpsc::(bounded::)?Sender::send$") if any("TransportManagerEvent" in a for a in c.f.get("args", []))]
